@@ -1,6 +1,7 @@
 """C17 — binning soundness; index files round-trip: file round-trip clauses (DESIGN.md §5 C17)."""
 import re
 
+from .. import a10
 from .. import cfg as C
 from .. import rules as R
 
@@ -77,6 +78,48 @@ def run(ctx):
         else:
             ctx.violation("C17.R2", "C17.R2/count-iff-present/" + key,
                           "%s: n_bin increment (%d), metadata presence test (%d) or write_metadata call (%d) missing" % (key, len(inc), len(sw), len(wm)), f.loc())
+    # path form of "written iff present": no success path on which every test of `metadata` took the Some branch
+    # (or no test happened) reaches Ok without passing write_metadata
+    nwb = 0
+    for key in sorted(k for k, g in fb.fns.items() if re.search(r"noodles_(csi|bam::bai|tabix)::(r#async::)?io::writer::index::reference_sequences::bins::write_bins(::\{closure#0\})?$", k)
+                      and ((g.coro and g.is_closure) or (not g.is_async and not g.is_closure))):
+        g = fb.fns[key]
+        ml = [l for l, nm in _names(g).items() if nm == "metadata"]
+        if not ml:
+            ctx.violation("C17.R2", "C17.R2/ANCHOR-MISSING/%s/metadata" % key, "%s has no `metadata` binding" % key, g.loc())
+            continue
+        nwb += 1
+        ctx.saw_fn(g)
+        none_edges = set()
+        for b, tt, ft, c in R.switch_on_call(g, r"option::Option::<T>::(is_some|is_none)$"):
+            if any(R.derives_from_local(g, a, m) for a in c["args"] for m in ml):
+                none_edges.add((b, ft if c["f"].endswith("is_some") else tt))
+        for b, blk in enumerate(g.blocks):
+            if blk["t"][0] != "sw" or blk.get("cu"):
+                continue
+            cond = C.switch_condition(g, b)
+            if cond and cond[0] == "discr" and (cond[1][0] in ml or any(R.derives_from_local(g, ["c", [cond[1][0], []]], m) for m in ml)):
+                vals = dict((v, tg) for v, tg in blk["t"][2])
+                if 0 in vals:
+                    none_edges.add((b, vals[0]))
+                elif set(vals) == {1}:
+                    none_edges.add((b, blk["t"][3]))      # `[1 -> Some] otherwise None`
+        wm = {b for b, c in g.calls() if (c.get("f") or "").split("::{closure")[0].endswith("write_metadata")}
+        ex = C.success_exit_blocks(g)
+        reach = C.reachable(g, 0, removed=wm, removed_edges=none_edges)
+        hit = [e for e in ex if e in reach]
+        if not none_edges or not wm:
+            ctx.violation("C17.R2", "C17.R2/written-iff-present/" + key, "%s: no presence test of `metadata` (%d) or no write_metadata call (%d)" % (
+                key, len(none_edges), len(wm)), g.loc())
+        elif hit:
+            path = R.shortest_path(g, 0, set(hit), removed=wm) or []
+            ctx.violation("C17.R2", "C17.R2/written-iff-present/" + key,
+                          "%s returns Ok on a path that never finds `metadata` absent and never writes the pseudo-bin (lines %s): the "
+                          "metadata of that reference sequence is silently dropped" % (key, R.path_lines(g, path)), g.loc(hit[0]))
+        else:
+            ctx.ok("C17.R2", key + " writes the pseudo-bin on every success path on which metadata is present",
+                   "%d absence edge(s), %d write_metadata site(s), %d success exit(s)" % (len(none_edges), len(wm), len(ex)), g.loc())
+    ctx.floor("C17.R2", "write_bins bodies checked for written-iff-present", nwb, 6)
     for key in ("noodles_csi::io::reader::index::reference_sequences::bins::read_bins",):
         f = ctx.anchor("C17.R2", key)
         if f is not None:
@@ -85,6 +128,12 @@ def run(ctx):
                 ctx.ok("C17.R2", key + " rejects a duplicate bin id", "", f.loc())
             else:
                 ctx.violation("C17.R2", "C17.R2/duplicate-bin/" + key, "%s no longer rejects duplicate bins" % key, f.loc())
+
+    ctx.rule("C17.R7", "A10 append-buffer discipline: the text index readers (crai, fai, tabix names) reset their line buffer before every appended line")
+    a10.discipline_rule(ctx, "C17.R7", r"^<?noodles_(cram::crai|fasta::fai|fastq::fai|csi::io)", 12)
+
+    ctx.rule("C17.R6", "A7 sibling agreement: reg2bin (indexing side) and reg2bins (query side) use the same coordinate convention")
+    binning_convention_rule(ctx, "C17.R6")
 
     ctx.rule("C17.R4", "A7/A8 magic numbers are single constants used by reader and writer; BAI/tabix geometry is (14,5)")
     for name, (prefix, ckey, want) in FORMATS.items():
@@ -130,3 +179,71 @@ def _uses_const(f, ckey):
                 if (C.op_const(a) or {}).get("def") == ckey:
                     return True
     return False
+
+
+def binning_convention_rule(ctx, rule):
+    """Every value that is shifted (>> s) in reg2bin / reg2bins and derives from the 1-based `start` (resp. `end`) parameter
+    has passed through exactly one `- 1`: both functions work on the same 0-based closed interval.  A lost or doubled
+    `- 1` on one side makes a feature's bin fall outside the bins of a region that touches it at a bin edge."""
+    fb = ctx.fb
+    sig = {}
+    for name in ("reg2bin", "reg2bins"):
+        key = "noodles_csi::binning_index::index::reference_sequence::" + name
+        f = ctx.anchor(rule, key)
+        if f is None:
+            return
+        per = {}
+        for blk in f.blocks:
+            for st in blk["s"]:
+                if st[0] == "=" and st[2][0] == "bin" and st[2][1] in ("Shr", "ShrUnchecked"):
+                    for pi, pname in ((1, "start"), (2, "end")):
+                        if R.derives_from_local(f, st[2][2], pi, through_calls=True):
+                            per.setdefault(pname, set()).add(_sub1_count(f, st[2][2], pi))
+        sig[name] = per
+        for pname in ("start", "end"):
+            if pname not in per:
+                ctx.violation(rule, "%s/ANCHOR-MISSING/%s/%s" % (rule, key, pname), "%s: no shift of a value derived from `%s` found" % (name, pname), f.loc())
+                return
+    ok = True
+    for pname in ("start", "end"):
+        a, b = sig["reg2bin"][pname], sig["reg2bins"][pname]
+        if a != {1} or b != {1}:
+            ok = False
+            ctx.violation(rule, "%s/coordinate-convention/%s" % (rule, pname),
+                          "reg2bin shifts `%s` after %s subtraction(s) of 1, reg2bins after %s: the indexing side and the query side disagree "
+                          "on the 0-based interval, so a record ending (or a query starting) exactly on a bin edge is lost" % (
+                              pname, sorted(a), sorted(b)), fb.fns["noodles_csi::binning_index::index::reference_sequence::reg2bins"].loc())
+    if ok:
+        ctx.ok(rule, "reg2bin and reg2bins both shift start-1 and end-1", "")
+
+
+def _sub1_count(f, op, param, depth=0):
+    """Number of `- 1` operations on the data-flow path from parameter `param` to the operand (max over paths, small)."""
+    if depth > 12:
+        return 0
+    l = C.op_local(op)
+    if l is None:
+        p = C.op_place(op)
+        l = p[0] if p else None
+    if l is None or l == param:
+        return 0
+    best = 0
+    for d in C.defs(f).get(l, []):
+        if d[0] in ("=", "partial"):
+            rv = d[3]
+            if rv[0] == "bin" and rv[1] in ("Sub", "SubWithOverflow", "SubUnchecked") and C.eval_const(f, rv[3]) == 1 and \
+                    R.derives_from_local(f, rv[2], param, through_calls=True):
+                best = max(best, 1 + _sub1_count(f, rv[2], param, depth + 1))
+            else:
+                for o in R.rvalue_operands(rv):
+                    if R.derives_from_local(f, o, param, through_calls=True) or C.op_local(o) == param:
+                        best = max(best, _sub1_count(f, o, param, depth + 1))
+        elif d[0] in ("call", "partial-call"):
+            for a in d[2]["args"]:
+                if R.derives_from_local(f, a, param, through_calls=True) or C.op_local(a) == param:
+                    best = max(best, _sub1_count(f, a, param, depth + 1))
+    return best
+
+
+def _names(g):
+    return {int(x[0]): x[1] for x in g.names}
